@@ -66,8 +66,11 @@ pub fn run(a: &Args) {
     let shapes = a.n.max(1);
     for shape in 0..shapes {
         // target shape: threads (some null-SP helpers), natural failures
-        let nth = if shape == 0 { 2 } else { rng.below(6) as usize };
-        let threads: Vec<ThreadSpec> = (0..nth).map(|i| ThreadSpec { kind: if (shape > 0 || i == 1) && rng.chance(1, 3) { Kind::NullSp } else { Kind::Block }, sp_off: 0x800, pages: 2, name: Some(format!("w{i}").into_bytes()), at: None }).collect();
+        // one shape with very many threads: with the thread-name fail point every one of them is a reported failure, and the
+        // soft-error stream grows far beyond a few KiB - it must stay complete, well-formed JSON
+        let crowd = shape == 2;
+        let nth = if shape == 0 { 2 } else if crowd { 130 } else { rng.below(6) as usize };
+        let threads: Vec<ThreadSpec> = (0..nth).map(|i| ThreadSpec { kind: if !crowd && (shape > 0 || i == 1) && rng.chance(1, 3) { Kind::NullSp } else { Kind::Block }, sp_off: 0x800, pages: 2, name: Some(format!("w{i}").into_bytes()), at: None }).collect();
         // the linker stream can fail because its data cannot be read, or because a loaded object's name is not valid UTF-8
         // (a different error value travels into the soft-error list)
         let dso_fails = shape > 0 && rng.chance(1, 2);
@@ -99,7 +102,7 @@ pub fn run(a: &Args) {
         let mut dest = std::io::Cursor::new(Vec::new());
         let base = quiet_catch(std::panic::AssertUnwindSafe(|| w0.dump(&mut dest).map_err(|e| format!("{e:?}"))));
         let base_img = match base { Ok(Ok(i)) => i, other => { let mut l = Line::new("const"); l.u(0); out.case(l.s(), &format!("!baseline dump failed: {other:?}").replace('\n', " "), true); continue; } };
-        let subsets: Vec<u32> = if shape == 0 || a.tier == "thorough" { (0..32).collect() } else { let mut v = vec![0u32, 31]; for _ in 0..6 { v.push(rng.below(32) as u32); } v };
+        let subsets: Vec<u32> = if crowd { vec![4, 31] } else if shape == 0 || a.tier == "thorough" { (0..32).collect() } else { let mut v = vec![0u32, 31]; for _ in 0..6 { v.push(rng.below(32) as u32); } v };
         for mask in subsets {
             target.settle();
             let mut client = FailSpotName::testing_client();
